@@ -243,12 +243,14 @@ class Rig:
         from Pyro5 import server, config
         self.config = config
         self.saved = {k: getattr(config, k) for k in ("SERVERTYPE", "COMMTIMEOUT", "MAX_RETRIES", "DETAILED_TRACEBACK",
-                                                     "ITER_STREAMING", "THREADPOOL_SIZE", "THREADPOOL_SIZE_MIN")}
+                                                     "ITER_STREAMING", "THREADPOOL_SIZE", "THREADPOOL_SIZE_MIN", "ITER_STREAM_LIFETIME",
+                                                     "ITER_STREAM_LINGER")}
         config.SERVERTYPE = "thread"
         config.COMMTIMEOUT = 0.0
         config.MAX_RETRIES = 0
         config.DETAILED_TRACEBACK = False
         config.ITER_STREAMING = True
+        self.saved_stream = (config.ITER_STREAM_LIFETIME, config.ITER_STREAM_LINGER)
         self.dir = tempfile.mkdtemp(prefix="c07-")
         self.H = Holder()
         self.nullh = logging.NullHandler()
